@@ -28,7 +28,7 @@ fixtab = "\n".join(f"| `{l.split(' ',1)[0]}` | {l.split(' ',1)[1]} |" for l in f
 tpl = re.sub(r"\| commit \| what \|\n\|---\|---\|\n(?:\|.*\|\n)+", "| commit | what |\n|---|---|\n" + fixtab + "\n", tpl)
 
 rows = []
-missed1 = []; nfi1 = []; missed3 = []; nfi3 = []; missed4 = []; nfi4 = []; missed5 = []; nfi5 = []; missed6 = []; nfi6 = []; missed7 = []; nfi7 = []; missed8 = []; nfi8 = []; missed9 = []; nfi9 = []
+missed1 = []; nfi1 = []; missed3 = []; nfi3 = []; missed4 = []; nfi4 = []; missed5 = []; nfi5 = []; missed6 = []; nfi6 = []; missed7 = []; nfi7 = []; missed8 = []; nfi8 = []; missed9 = []; nfi9 = []; missed10 = []; nfi10 = []
 for f in sorted(glob.glob(V + '/seeded/*/meta.json')):
     m = json.load(open(f))
     ch = re.sub(r'^(Change|C\d\d change|#+)\s*\d*\s*[-:–—.]?\s*', '', m['change']).strip()
@@ -48,6 +48,9 @@ for f in sorted(glob.glob(V + '/seeded/*/meta.json')):
     if m.get('round') == 9:
         if first == 'missed': missed9.append(m['id'])
         if first == 'caught, no input': nfi9.append(m['id'])
+    if m.get('round') == 10:
+        if first == 'missed': missed10.append(m['id'])
+        if first == 'caught, no input': nfi10.append(m['id'])
     elif m.get('round') == 7:
         if first == 'missed': missed7.append(m['id'])
         if first == 'caught, no input': nfi7.append(m['id'])
@@ -76,7 +79,7 @@ for f in sorted(glob.glob(V + '/seeded/*/meta.json')):
         stren.append(f"* **{m['id']}** – {sw}")
 seeded = f'''### 13.7 Seeded breaking changes and which checks catch them
 
-Three hundred and sixty changes, eighteen per property, in nine rounds.  Each was written by a fresh sub-agent that saw
+Four hundred changes, twenty per property, in ten rounds.  Each was written by a fresh sub-agent that saw
 only the text of one property and a scratch worktree (nothing from /verif), was asked for a
 plausible maintainer edit that needs something specific to manifest, and was confirmed by hand in
 a scratch worktree: applies to HEAD, builds, the whole existing suite passes, the demonstration
@@ -184,7 +187,17 @@ input, {len(nfi9)} only as a broken correspondence ({', '.join(nfi9)}) and {len(
 values, and a hand-written integer test that takes a lone sign for a number (`"-".decimal()`).  One
 change of the round (C16, the path of a template read through the mode flag again) undoes the repair
 `0bd9d10` of an earlier finding; the check reports it like any other violation (a `fixed` entry of the
-known-findings file suppresses nothing).  Now all three hundred and sixty are reported by the quick
+known-findings file suppresses nothing).
+
+Round 10 (ids `-19`, `-20`) asked for *minimal* slips only, at most three changed lines each: a flipped
+or loosened comparison, an off-by-one, two arguments or variables of one type swapped, a wrong constant or
+field, a dropped negation, `&&` for `||`, a missing `return`, the wrong one of two similarly named
+helpers — classic mutation testing, with the sub-agent choosing spots where the existing tests do not
+look.  {40 - len(missed10) - len(nfi10)} of 40 were caught at once with a concrete failing input, {len(nfi10)} only as a broken
+obligation or correspondence ({', '.join(nfi10)}) and {len(missed10)} were not reported by the first run ({', '.join(missed10)}): a
+render that writes the escaped text back into the string literal node (only a second render of the
+same page shows it) was missed, and the check of the change that makes the parser spin on every
+unfinished block had to be stopped after 48 minutes.  Now all four hundred are reported by the quick
 check of their own property with a concrete failing input as replay.
 
 What was added for the ones not caught (or caught without an input) at first:
